@@ -7,6 +7,7 @@
 -/
 import Pymodbus.Props.C14
 import Pymodbus.Model.Server
+import Pymodbus.Generated.Tables
 namespace Pymodbus.Props.C09
 open Pymodbus Pymodbus.Server Pymodbus.Framer RegisterFile
 
@@ -288,5 +289,14 @@ theorem frames_carry_request_ids (cfg : Cfg) (w : World) (evs : List (Ev Req)) :
               rcases hf with rfl | hf
               · exact ⟨r, uid, tid, pid, w, rp, by simp, by rw [hcb], hfr⟩
               · exact lift (ih (countMessage cfg c1) f hf)
+
+
+/-- tie to the source: the structure of the seven front-ends as read off the source files on this run (by ast: which
+    receive methods append unit 0 when broadcast is enabled, what each catch-all does with an exception out of the
+    receive call, who counts sent messages, who is gated by listen-only mode, that sending is gated by
+    `should_respond` and that `execute` copies transaction id and unit id to the response) is the one the model encodes -/
+theorem generated_server_structure :
+    Generated.serverStructure = allFrontends.map (fun f =>
+      (f.name, addsBroadcastUnit f, f.onErrorSrc, isTwisted f, isTwisted f, true, true)) := by rfl
 
 end Pymodbus.Props.C09
